@@ -1,4 +1,6 @@
-(** C09 — statements that are NOT proved (listed in NOT_PROVED of lib/props/c09.py). They are kept
+(** C09 — statements of the property, kept at full strength. Those still listed in NOT_PROVED of
+    lib/props/c09.py (file_visit_sees_stable_mailboxes_stmt) are unproved; the others are proved in
+    Proofs/ConcMemLin.v, ConcMemLinEnf.v, ConcMemIds.v, ConcMemStays.v. They were first kept
     here at full strength; the forced-schedule correspondence check and the runner's
     linearizability oracle (the same [seq_exec]) test them on every run. Each has a sanity
     [Example] showing that it holds on one concrete interleaving. *)
